@@ -23,8 +23,23 @@ func (c *captureSender) SendMsg(hwebsocket.Msg)     {}
 
 // statCase runs one complete measurement on the real models.SignedLatency with chosen round latencies
 // (microseconds) and prints `STAT n l_1 .. l_{n-1} L_final | min max mean p95 last sig`.
+// statCaseWrap runs one short measurement across a wrap of the 32-bit nanosecond clock the ping ids are taken from (one
+// every 4.29 s): the ids of the later rounds are then numerically smaller than those of the earlier ones.
+func statCaseWrap(rnd *rand.Rand, key *ecdsa.PrivateKey, out *bufio.Writer) {
+	for uint32(time.Now().UnixNano()) < 0xFFFFFFFF-1_500_000 {
+		left := time.Duration(0xFFFFFFFF-uint32(time.Now().UnixNano())) * time.Nanosecond
+		if left > 3*time.Millisecond {
+			time.Sleep(left - 2*time.Millisecond)
+		}
+	}
+	statCaseN(rnd, key, out, 3+rnd.Intn(3), time.Millisecond)
+}
+
 func statCase(rnd *rand.Rand, key *ecdsa.PrivateKey, out *bufio.Writer) {
-	n := 3 + rnd.Intn(48)
+	statCaseN(rnd, key, out, 3+rnd.Intn(48), 0)
+}
+
+func statCaseN(rnd *rand.Rand, key *ecdsa.PrivateKey, out *bufio.Writer, n int, pause time.Duration) {
 	sl := &models.SignedLatency{}
 	snd := &captureSender{}
 	sl.Start(key, snd, 7, uint32(n), "uuid-1", "client-1", "0xabc")
@@ -33,6 +48,9 @@ func statCase(rnd *rand.Rand, key *ecdsa.PrivateKey, out *bufio.Writer) {
 	var lats []int64
 	var finalL int64
 	for round := 0; round < n; round++ {
+		if pause > 0 {
+			time.Sleep(pause)
+		}
 		last := snd.msgs[len(snd.msgs)-1].(*hagallpb.Response)
 		id := last.RequestId
 		var L int64
